@@ -238,7 +238,13 @@ func (r *Runtime) builtinJSON_stringify(call FunctionCall) Value {
 			num = int64(i)
 			isNum = true
 		} else if f, ok := spaceValue.(valueFloat); ok {
-			num = int64(f)
+			// min(10, ToIntegerOrInfinity(space)); int64(f) is undefined for NaN, infinities and huge values
+			switch {
+			case float64(f) >= 10:
+				num = 10
+			case float64(f) >= 1:
+				num = int64(f)
+			}
 			isNum = true
 		}
 		if isNum {
